@@ -215,7 +215,10 @@ def instrument(ctx: "Ctx") -> None:
         if listener is ov:
             rec.via = "own-listener" + ("@TunnelEndpoint" if isinstance(ov.endpoint, TunnelEndpoint) else "")
         else:
-            rec.via = f"{type(listener).__name__}-listener"
+            # a helper listener registered through a TunnelEndpoint cannot be unregistered either (same root cause as
+            # own-listener@TunnelEndpoint: the wrapper does not forward remove_listener)
+            rec.via = f"{type(listener).__name__}-listener" + ("@TunnelEndpoint" if isinstance(ov.endpoint, TunnelEndpoint)
+                                                               else "")
         try:
             orig_deliver(listener, packet)
         finally:
